@@ -1604,71 +1604,237 @@ def r5_stack_discipline(corpus: Corpus, rep: Report, tier: str):
     rep.expect_min("C16.R5", 10, "8 stack writes + opening + 3 childless + 2 enclose obligations on the pinned tree")
 
 
+class _Entry:
+    """An abstract open element: all that enclose() may look at is whether its name equals the closing tag's."""
+
+    def __init__(self, matches: bool, pos: int):
+        self.matches, self.pos = matches, pos
+
+
+class _Stops(Exception):
+    def __init__(self, why: str):
+        self.why = why
+
+
+class _EncloseRun:
+    """One run of the closing function over an abstract open-element stack (bottom .. top), given as the list of
+    `entry.name == <closing name>` outcomes.  Values: ints, bools, entries, lists.  Counts the pops."""
+
+    def __init__(self, P: Ctx, fi: FunctionInfo, pattern: list[bool]):
+        self.P, self.fi = P, fi
+        self.stack = [_Entry(m, i) for i, m in enumerate(pattern)]
+        self.name_param = [p for p in fi.params if p != "self"][0]
+        self.env: dict[str, object] = {}
+        self.pops = 0
+        self.iterating = 0
+        self.steps = 0
+
+    def ev(self, e: ast.expr):
+        P = self.P
+        if isinstance(e, ast.Constant) and isinstance(e.value, (int, bool)) or isinstance(e, ast.Constant) and e.value is None:
+            return e.value
+        if isinstance(e, ast.Name):
+            if e.id in self.env:
+                return self.env[e.id]
+            raise Unsupported(f"{self.fi.fq}: name {e.id}")
+        if P.is_stack(e):
+            return self.stack
+        if isinstance(e, ast.BinOp) and isinstance(e.op, (ast.Add, ast.Sub)):
+            l, r = self.ev(e.left), self.ev(e.right)
+            if isinstance(l, int) and isinstance(r, int):
+                return l + r if isinstance(e.op, ast.Add) else l - r
+        if isinstance(e, ast.UnaryOp) and isinstance(e.op, ast.Not):
+            return not self.truth(self.ev(e.operand))
+        if isinstance(e, ast.UnaryOp) and isinstance(e.op, ast.USub):
+            v = self.ev(e.operand)
+            if isinstance(v, int):
+                return -v
+        if isinstance(e, ast.BoolOp):
+            v = None
+            for x in e.values:
+                v = self.ev(x)
+                if self.truth(v) != isinstance(e.op, ast.And):
+                    return v
+            return v
+        if isinstance(e, ast.IfExp):
+            return self.ev(e.body if self.truth(self.ev(e.test)) else e.orelse)
+        if isinstance(e, ast.Compare) and len(e.ops) == 1:
+            op = e.ops[0]
+            l, r = e.left, e.comparators[0]
+            for a_, b_ in ((l, r), (r, l)):
+                if isinstance(a_, ast.Attribute) and a_.attr == "name" and _is_name(b_, self.name_param):
+                    ent = self.ev(a_.value)
+                    if isinstance(ent, _Entry) and isinstance(op, (ast.Eq, ast.NotEq)):
+                        return ent.matches if isinstance(op, ast.Eq) else not ent.matches
+            lv, rv = self.ev(l), self.ev(r)
+            if isinstance(op, (ast.Is, ast.IsNot)) and (lv is None or rv is None):
+                return (lv is rv) if isinstance(op, ast.Is) else (lv is not rv)
+            if isinstance(lv, int) and isinstance(rv, int):
+                return {ast.Eq: lv == rv, ast.NotEq: lv != rv, ast.Lt: lv < rv, ast.LtE: lv <= rv, ast.Gt: lv > rv, ast.GtE: lv >= rv}.get(type(op))
+        if isinstance(e, ast.Subscript) and not isinstance(e.slice, ast.Slice):
+            seq, i = self.ev(e.value), self.ev(e.slice)
+            if isinstance(seq, list) and isinstance(i, int) and not isinstance(i, bool):
+                if -len(seq) <= i < len(seq):
+                    return seq[i]
+                raise _Stops("IndexError: the open-element stack is indexed out of range")
+        if isinstance(e, ast.Call):
+            d = dotted(e.func)
+            if isinstance(e.func, ast.Attribute) and P.is_stack(e.func.value) and e.func.attr == "pop" and not e.args:
+                return self.pop()
+            args = [self.ev(a_) for a_ in e.args]
+            kw = {k.arg: self.ev(k.value) for k in e.keywords}
+            if d == "len" and len(args) == 1 and isinstance(args[0], list):
+                return len(args[0])
+            if d == "reversed" and len(args) == 1 and isinstance(args[0], list):
+                return list(reversed(args[0]))
+            if d == "list" and len(args) == 1 and isinstance(args[0], list):
+                return list(args[0])
+            if d == "enumerate" and args and isinstance(args[0], list):
+                start = args[1] if len(args) > 1 else kw.get("start", 0)
+                if isinstance(start, int):
+                    return [(start + i, x) for i, x in enumerate(args[0])]
+            if d == "range" and args and all(isinstance(x, int) for x in args) and not kw:
+                return list(range(*args))
+        raise Unsupported(f"{self.fi.fq}: expression `{short(e, 50)}`")
+
+    @staticmethod
+    def truth(v) -> bool:
+        if isinstance(v, _Entry):
+            return True
+        return bool(v)
+
+    def pop(self):
+        if self.iterating:
+            raise Unsupported(f"{self.fi.fq}: pop() while iterating over the stack")
+        if not self.stack:
+            raise _Stops("IndexError: pop from an empty stack")
+        self.pops += 1
+        return self.stack.pop()
+
+    def bind(self, tgt: ast.expr, val) -> None:
+        if isinstance(tgt, ast.Name):
+            self.env[tgt.id] = val
+        elif isinstance(tgt, ast.Tuple) and isinstance(val, tuple) and len(val) == len(tgt.elts):
+            for t, v in zip(tgt.elts, val):
+                self.bind(t, v)
+        else:
+            raise Unsupported(f"{self.fi.fq}: assignment target {short(tgt, 30)}")
+
+    def block(self, stmts) -> str | None:
+        for st in stmts:
+            sig = self.stmt(st)
+            if sig:
+                return sig
+        return None
+
+    def stmt(self, st: ast.stmt) -> str | None:
+        self.steps += 1
+        if self.steps > 2000:
+            raise Unsupported(f"{self.fi.fq}: no termination within the step bound")
+        if isinstance(st, ast.Pass) or (isinstance(st, ast.Expr) and isinstance(st.value, ast.Constant)):
+            return None
+        if isinstance(st, ast.Expr):
+            self.ev(st.value)
+            return None
+        if isinstance(st, ast.Assign) and len(st.targets) == 1:
+            self.bind(st.targets[0], self.ev(st.value))
+            return None
+        if isinstance(st, ast.AnnAssign) and st.value is not None:
+            self.bind(st.target, self.ev(st.value))
+            return None
+        if isinstance(st, ast.AugAssign) and isinstance(st.target, ast.Name) and isinstance(st.op, (ast.Add, ast.Sub)):
+            cur, v = self.ev(st.target), self.ev(st.value)
+            if isinstance(cur, int) and isinstance(v, int):
+                self.env[st.target.id] = cur + v if isinstance(st.op, ast.Add) else cur - v
+                return None
+        if isinstance(st, ast.If):
+            return self.block(st.body if self.truth(self.ev(st.test)) else st.orelse)
+        if isinstance(st, ast.For):
+            seq = self.ev(st.iter)
+            if not isinstance(seq, list):
+                raise Unsupported(f"{self.fi.fq}: loop over `{short(st.iter, 40)}`")
+            over_stack = any(self.P.is_stack(x) for x in ast.walk(st.iter))
+            broke = False
+            self.iterating += over_stack
+            try:
+                for item in list(seq):
+                    self.bind(st.target, item)
+                    sig = self.block(st.body)
+                    if sig == "break":
+                        broke = True
+                        break
+                    if sig == "return":
+                        return sig
+            finally:
+                self.iterating -= over_stack
+            return None if broke else self.block(st.orelse)
+        if isinstance(st, ast.While):
+            broke = False
+            while self.truth(self.ev(st.test)):
+                self.steps += 1
+                if self.steps > 2000:
+                    raise Unsupported(f"{self.fi.fq}: no termination within the step bound")
+                sig = self.block(st.body)
+                if sig == "break":
+                    broke = True
+                    break
+                if sig == "return":
+                    return sig
+            return None if broke else self.block(st.orelse)
+        if isinstance(st, ast.Break):
+            return "break"
+        if isinstance(st, ast.Continue):
+            return "continue"
+        if isinstance(st, ast.Return):
+            if st.value is not None:
+                self.ev(st.value)
+            return "return"
+        if isinstance(st, ast.Raise):
+            raise _Stops("raise")  # an explicit exception: judged by R6, the pops so far are what counts here
+        raise Unsupported(f"{self.fi.fq}: statement `{short(st, 50)}`")
+
+
 def _judge_enclose(P: Ctx, rep: Report, fi: FunctionInfo) -> None:
-    cfg = get_cfg(fi)
-    pops = [op for op in _stack_ops(P, fi)]
-    if not pops or any(not (isinstance(op, ast.Call) and op.func.attr == "pop" and not op.args) for op in pops):
+    """Decision table of the closing function over abstract stacks [Root, e1..] of depth 1-4 x every match pattern
+    (Root never matches: tabled assumption): pops == distance of the innermost matching entry from the top, else 0."""
+    ops = _stack_ops(P, fi)
+    if not ops or any(not (isinstance(op, ast.Call) and op.func.attr == "pop" and not op.args) for op in ops):
         raise Unsupported(f"{fi.fq}: stack writes other than pop()")
-    name_param = [p for p in fi.params if p != "self"]
-    if len(name_param) != 1:
+    if len([p for p in fi.params if p != "self"]) != 1:
         raise Unsupported(f"{fi.fq}: parameters {fi.params}")
-    counters = set()
-    poploops = []
-    for op in pops:
-        st = enclosing_stmt(op)
-        loop = parent(st)
-        if not (isinstance(st, ast.Expr) and isinstance(loop, ast.For) and loop.body == [st] and not loop.orelse and isinstance(loop.iter, ast.Call) and dotted(loop.iter.func) == "range" and len(loop.iter.args) == 1 and isinstance(loop.iter.args[0], ast.Name)):
-            raise Unsupported(f"{fi.fq}: pop() is not the body of `for _ in range(<count>)`")
-        counters.add(loop.iter.args[0].id)
-        poploops.append(loop)
-    if len(counters) != 1 or len(poploops) != 1:
-        raise Unsupported(f"{fi.fq}: several pop loops")
-    (cnt,) = counters
-    poploop = poploops[0]
-    searches = [n for n in walk_local(fi.node) if isinstance(n, ast.For) and n is not poploop]
-    if len(searches) != 1:
-        raise Unsupported(f"{fi.fq}: expected one search loop over the stack")
-    s = searches[0]
-    it = s.iter
-    if not (isinstance(it, ast.Call) and dotted(it.func) == "reversed" and len(it.args) == 1 and P.is_stack(it.args[0]) and isinstance(s.target, ast.Name)):
-        raise Unsupported(f"{fi.fq}: search loop does not run over reversed(self.{P.stack_attr})")
-    var = s.target.id
-    # body: one increment by 1, then `if var.name == name: break`
-    incs, brk = [], []
-    for k, st in enumerate(s.body):
-        if isinstance(st, ast.AugAssign) and _is_name(st.target, cnt) and isinstance(st.op, ast.Add) and isinstance(st.value, ast.Constant) and st.value.value == 1:
-            incs.append(k)
-        elif isinstance(st, ast.Assign) and len(st.targets) == 1 and _is_name(st.targets[0], cnt) and isinstance(st.value, ast.BinOp) and isinstance(st.value.op, ast.Add) and {unparse(st.value.left), unparse(st.value.right)} == {cnt, "1"}:
-            incs.append(k)
-        elif isinstance(st, ast.If) and not st.orelse and len(st.body) == 1 and isinstance(st.body[0], ast.Break):
-            brk.append((k, st))
-        else:
-            raise Unsupported(f"{fi.fq}: search loop statement `{short(st, 50)}`")
-    if len(incs) != 1 or len(brk) != 1 or incs[0] > brk[0][0]:
-        raise Unsupported(f"{fi.fq}: search loop is not `count += 1; if match: break`")
-    t = brk[0][1].test
+    bad_match = bad_nomatch = None
+    n_rows = 0
+    for depth in range(1, 5):
+        for bits in range(2 ** (depth - 1)):
+            pattern = [False] + [bool(bits >> k & 1) for k in range(depth - 1)]
+            want = next((d for d, m in enumerate(reversed(pattern), start=1) if m), 0)
+            run = _EncloseRun(P, fi, pattern)
+            n_rows += 1
+            try:
+                run.block(fi.node.body)
+                got = f"{run.pops} popped"
+                wrong = run.pops != want
+            except _Stops as e:
+                got = f"{run.pops} popped, then {e.why}" if e.why != "raise" else f"{run.pops} popped, then an exception is raised"
+                wrong = run.pops != want or e.why != "raise"
+            if wrong:
+                shape = "[Root" + "".join(", match" if m else ", other" for m in pattern[1:]) + "] (bottom .. top)"
+                msg = f"open elements {shape}: {got}, expected {want}"
+                if want and bad_match is None:
+                    bad_match = msg
+                elif not want and bad_nomatch is None:
+                    bad_nomatch = msg
+    site = fi.site()
     key = f"{fi.fq}|pops down to the nearest open element with the closing tag's name"
-    site = fi.module.site(brk[0][1])
-    if isinstance(t, ast.Compare) and len(t.ops) == 1 and {unparse(t.left), unparse(t.comparators[0])} == {f"{var}.name", name_param[0]}:
-        inits = [b for b in _bindings(fi, cnt) if isinstance(b, ast.Assign) and isinstance(b.value, ast.Constant) and b.value.value == 0 and cfg.dominates(b, s)]
-        if not inits:
-            raise Unsupported(f"{fi.fq}: {cnt} is not initialised to 0 before the search loop")
-        if isinstance(t.ops[0], ast.Eq):
-            rep.ok("C16.R5", key, site, f"{cnt} = number of stack entries visited up to and including the match")
-        else:
-            rep.violation("C16.R5", key, site, f"the search stops at the first open element whose name is *not* the closing tag's (`{short(t, 40)}`): balanced input closes the wrong elements")
+    if bad_match:
+        rep.violation("C16.R5", key, site, f"{fi.qualname}: {bad_match} - balanced input closes the wrong elements, so children are attached to the wrong parent and the rendering differs from the source")
     else:
-        raise Unsupported(f"{fi.fq}: match test `{short(t, 50)}`")
-    # no-match path: count is reset to the constant 0 before the pop loop
+        rep.ok("C16.R5", key, site, f"{n_rows}-row decision table over abstract stacks of depth 1-4")
     key = f"{fi.fq}|no open element matches: nothing is popped"
-    zero = {b for b in _bindings(fi, cnt) if isinstance(b, ast.Assign) and isinstance(b.value, ast.Constant) and b.value.value == 0}
-    exhausted = ("F", s)
-    if poploop not in cfg.reachable_from(exhausted):
-        rep.ok("C16.R5", key, fi.module.site(s), "the exhausted-search path never reaches the pop loop")
-    elif cfg.paths_avoiding(exhausted, poploop, lambda n: n in zero):
-        rep.violation("C16.R5", key, fi.module.site(s), f"when no open element has the closing tag's name the search loop ends with {cnt} = len(stack) and nothing resets it: a stray `</x>` pops every open element *and the root*; the next event raises IndexError in last() and the remaining text is lost")
+    if bad_nomatch:
+        rep.violation("C16.R5", key, site, f"{fi.qualname}: {bad_nomatch} - a stray `</x>` closes open elements (up to the root: the next event then raises IndexError in last() and the remaining text is lost)")
     else:
-        rep.ok("C16.R5", key, fi.module.site(s), f"for-else resets {cnt} to 0")
+        rep.ok("C16.R5", key, site, "no pop on any no-match row")
 
 
 # ---------------------------------------------------------------------------
@@ -2359,6 +2525,13 @@ def mutants(corpus: Corpus):
     en = T["enclose"]
     fl = find_node(en, lambda n: isinstance(n, ast.For) and n.orelse)
     add("c16-enclose-no-match-reset-dropped", "C16.R5", fl.orelse[0] if fl is not None else None, "pass", "nothing is popped")
+    br = find_node(en, lambda n: isinstance(n, ast.Break))
+    add("c16-enclose-break-dropped", "C16.R5", br, "pass", "pops down to the nearest")
+    if fl is not None and len(fl.body) == 2:
+        s0, s1 = fl.body
+        out.append(Mutant("c16-enclose-counts-after-the-test", "C16.R5", m.rel, splice(splice(src, s1, ast.get_source_segment(src, s0)), s0, ast.get_source_segment(src, s1)), expect="pops down to the nearest"))
+    else:
+        out.append(("c16-enclose-counts-after-the-test", "the search loop of enclose() no longer has the count/test pair"))
     a = find_node(T["nest_xtag"], lambda n: isinstance(n, ast.Expr) and unparse(n) == "top.append(item)")
     add("c16-xtag-pushed-on-stack", "C16.R5", a, "top.append(item)\n        self.stack.append(item)", "Tree.nest_xtag|stack write")
     a = find_node(T["nest_tag"], lambda n: isinstance(n, ast.Expr) and unparse(n) == "self.stack.append(pointer)")
